@@ -151,10 +151,12 @@ class Scenario(Session):
             self.q(ref.e_ack("pubcomp", d["pid"], 0 if known else 0x92, self.ack_props() if known else [], short=self.rng.random() < 0.5))
         elif t == "subscribe":
             rcs = [self.rng.choice(SUBACK_RCS) for _ in d["topics"]]
-            if any(r < 0x80 for r in rcs): self.sub_ok = True
+            rcs = self.maybe_bad_verdicts(rcs, SUBACK_RCS)
+            if any(r < 0x80 for r in rcs) and len(rcs) == len(d["topics"]): self.sub_ok = True
             self.q(ref.e_suback("suback", d["pid"], rcs, self.ack_props()))
         elif t == "unsubscribe":
-            self.q(ref.e_suback("unsuback", d["pid"], [self.rng.choice(UNSUBACK_RCS) for _ in d["topics"]], self.ack_props()))
+            rcs = self.maybe_bad_verdicts([self.rng.choice(UNSUBACK_RCS) for _ in d["topics"]], UNSUBACK_RCS)
+            self.q(ref.e_suback("unsuback", d["pid"], rcs, self.ack_props()))
         elif t == "pingreq":
             self.q(ref.e_pingresp())
         elif t == "puback":
@@ -167,6 +169,16 @@ class Scenario(Session):
             self.bq = [m for m in self.bq if not (m["pid"] == d["pid"] and m["qos"] == 2)]
         elif t == "disconnect":
             self.broker_out = bytearray(); self.held = []   # the broker closes the connection
+
+    def maybe_bad_verdicts(self, rcs, good):
+        """a broker that occasionally acknowledges with a wrong count or an inadmissible code (must never be surfaced as success)"""
+        if self.rng.random() > 0.08: return rcs
+        self.count("bad-verdicts")
+        k = self.rng.choice(["extra-invalid", "extra-valid", "missing", "invalid"])
+        if k == "extra-invalid": pos = self.rng.randint(0, len(rcs)); return rcs[:pos] + [0xFF] + rcs[pos:]
+        if k == "extra-valid": return rcs + [self.rng.choice(good)]
+        if k == "missing": return rcs[:-1] if len(rcs) > 1 else rcs + [0x42]
+        return [0x42] + rcs[1:]
 
     def broker_publish(self):
         qos = self.rng.choice([0, 1, 2])
